@@ -554,6 +554,73 @@ class Extracted:
         return self
 
     # X6 ------------------------------------------------------------------------------------------
+    def normalize_params(self, names=()):
+        """X9(b): a destructuring parameter (`(a, b): (T, U)`, `S { x, .. }: S`) becomes an identifier plus a leading `let` (Verus accepts only identifiers)"""
+        try:
+            sig, body = self.fn_parts()
+        except AnchorLost:
+            return self
+        m = re.search(r'\bfn\s+[A-Za-z_][A-Za-z0-9_]*', sig)
+        if not m:
+            return self
+        mask = code_mask(sig)
+        i = m.end()
+        if i < len(sig) and sig[i] == '<':      # generics
+            depth = 0
+            while i < len(sig):
+                if sig[i] == '<':
+                    depth += 1
+                elif sig[i] == '>' and sig[i - 1] != '-':
+                    depth -= 1
+                    if depth == 0:
+                        i += 1
+                        break
+                i += 1
+        while i < len(sig) and sig[i] != '(':
+            i += 1
+        if i >= len(sig):
+            return self
+        c = match_delim(sig, mask, i)
+        inner = sig[i + 1:c]
+        parts, depth, cur = [], 0, ''
+        for ch in inner:
+            if ch in '([{<':
+                depth += 1
+            elif ch in ')]}>':
+                depth -= 1
+            if ch == ',' and depth == 0:
+                parts.append(cur); cur = ''
+            else:
+                cur += ch
+        if cur.strip():
+            parts.append(cur)
+        lets, new_parts, k = [], [], 0
+        for prm in parts:
+            depth, pos = 0, None
+            for j, ch in enumerate(prm):
+                if ch in '([{<':
+                    depth += 1
+                elif ch in ')]}>':
+                    depth -= 1
+                elif ch == ':' and depth == 0 and prm[j + 1:j + 2] != ':' and prm[j - 1:j] != ':':
+                    pos = j
+                    break
+            if pos is None:
+                new_parts.append(prm); continue
+            pat, ty = prm[:pos].strip(), prm[pos + 1:].strip()
+            if re.match(r'^(mut\s+)?[A-Za-z_][A-Za-z0-9_]*$', pat):
+                new_parts.append(prm); continue
+            name = names[k] if k < len(names) else '__p%d' % k
+            k += 1
+            new_parts.append('\n        %s: %s' % (name, ty))
+            lets.append('let %s = %s;' % (pat, name))
+        if not lets:
+            return self
+        sig2 = sig[:i + 1] + ','.join(new_parts) + sig[c:]
+        self.text = sig2 + '{\n        ' + '\n        '.join(lets) + body[1:]
+        self.log('X9b', '%d destructuring parameter(s) replaced by identifiers plus leading lets' % len(lets))
+        return self
+
     def fn_parts(self):
         """(signature, body) of a fn item; body includes the braces"""
         t = self.text
